@@ -128,11 +128,13 @@ func c14Predict(w *c14World, r c14Req) c14St {
 	if r.Kind == "restart" {
 		return c14St{cur.lock, "nil", cur.pub}
 	}
-	if r.Kind != "add" {
+	if r.Kind != "add" || r.CP.Branch == "b" {
+		// the second log's record is not part of the canonical state: in every
+		// (re)built source state it is empty
 		return cur
 	}
 	_, f := w.t.body(r)
-	rec := w.lockHist[len(w.lockHist)-1]
+	rec := w.ta.lockHist[len(w.ta.lockHist)-1]
 	if f.Old > f.N || f.Malformed || f.BadSignature || f.Extension {
 		return cur // refused before the record is consulted
 	}
